@@ -413,9 +413,19 @@ class World(object):
         if initial_data is not SENTINEL:
             if is_pulled:
                 assert src_sim.outputs is not None
-                src_sim.outputs.setdefault(
-                    -int(time_shifted), {}
-                ).setdefault(src.eid, {})[src_attr] = initial_data
+                init_time = -int(time_shifted)
+                if init_time not in src_sim.outputs:
+                    # Initial data of connections with a larger time
+                    # shift is still valid at init_time.
+                    older = [t for t in src_sim.outputs if t < init_time]
+                    src_sim.outputs[init_time] = {
+                        eid: dict(attrs)
+                        for eid, attrs in src_sim.outputs[max(older)].items()
+                    } if older else {}
+                # The initial data stays valid until the first output.
+                for time, cache in src_sim.outputs.items():
+                    if time == init_time or init_time < time < 0:
+                        cache.setdefault(src.eid, {})[src_attr] = initial_data
             else:
                 dest_sim.persistent_inputs.setdefault(
                     dest.eid, {}
